@@ -37,6 +37,11 @@ def work(run, part, parts):
     from passlib.totp import TOTP
     import warnings
     warnings.simplefilter("ignore")
+    import os
+    import time as _time
+    if os.environ.get("TZ") and hasattr(_time, "tzset"):
+        _time.tzset()           # the shard runs under the process time zone given by the parent (naive date-times stay UTC by contract)
+        run.count("shards_with_process_timezone:" + os.environ["TZ"])
     try:
         selftest()
     except AssertionError:
@@ -153,7 +158,12 @@ def work(run, part, parts):
 
 def body(run):
     P = 16
-    run.parallel("checks.c13", "work", [dict(part=i, parts=P) for i in range(P)], timeout=900 if run.tier == "quick" else 3600)
+    # the process time zone must not matter: shards run under UTC, a western, an eastern and a fractional-offset zone (POSIX TZ strings, no tzdata needed)
+    zones = ["UTC0", "EST5EDT,M3.2.0,M11.1.0", "IST-5:30", "NZST-12NZDT,M9.5.0,M4.1.0/3"]
+    for zi, tz in enumerate(zones):
+        run.parallel("checks.c13", "work", [dict(part=i, parts=P) for i in range(P) if i % len(zones) == zi], timeout=900 if run.tier == "quick" else 3600, env={"TZ": tz})
+    for tz in zones:
+        run.require("shards_with_process_timezone:" + tz, 1)
     run.require("generate", 300000)
     run.require("key_spellings", 20000)
     run.require("object_reuse", 10000)
